@@ -31,6 +31,10 @@ func genC18(t *rapid.T) c18Case {
 		for j := range c.Scripts[i].Pkts {
 			p := &c.Scripts[i].Pkts[j]
 			uniq := "T0k" + rapid.StringMatching(`[A-Za-z0-9]{16}`).Draw(t, "pw_token")
+			if rapid.IntRange(0, 3).Draw(t, "non_ascii_password") == 0 {
+				// a password outside US-ASCII (UTF-8, or a stray high byte): takes the decoders' error paths
+				uniq += rapid.SampledFrom([]string{"\xc3\xa9", "\xff", "\xe2\x82\xac9"}).Draw(t, "pw_suffix")
+			}
 			switch {
 			case p.Kind == "start" && p.Start.AType == 2 && !searchable(string(p.Start.Data)) && len(p.Start.Data) > 0:
 				p.Start.Data = []byte(uniq)
